@@ -174,7 +174,7 @@ def one_ini(job):
         ini = os.path.join(d, "cfg.ini")
         open(ini, "w").write(ini_text(c))
         what = "INI %s" % json.dumps({k: v for k, v in cfg.items() if v is not None}, sort_keys=True)
-        viols, all_msgs, prev_pretty = [], [], None
+        viols, all_msgs, renderings = [], [], {}
         runs = 2 if c.get("path") else 1
         for run in range(runs):
             rc, so, se = run_child([exe, mode, ini, str(run)], use_pty)
@@ -198,7 +198,11 @@ def one_ini(job):
             po, pe = [ANSI.sub("", x) for x in ol], [ANSI.sub("", x) for x in el]
             if out_on and err_copies and not viols and po != pe[::err_copies]:
                 viols.append(("streams-differ", "%s: stdout shows %r, stderr shows %r" % (what, po[:3], pe[:3])))
-            prev_pretty = (po if out_on else pe[::err_copies] if err_copies else None) if run == runs - 1 else prev_pretty
+            # without message_pattern: how each message was rendered (timestamp removed), for the cross-configuration comparison
+            if not cfg.get("message_pattern") and not viols:
+                shown = po if out_on else pe[::err_copies] if err_copies else []
+                for m, line in zip(msgs, shown):
+                    renderings.setdefault(m[2], set()).add(re.sub(r"^\S+ \S+ ", "", line, count=1))
         nrot = 0
         if c.get("path"):
             text, nrot = read_files(d)
@@ -217,7 +221,7 @@ def one_ini(job):
         else:
             if glob.glob(os.path.join(d, "*.log*")):
                 viols.append(("file:unconfigured", "%s: a log file appeared although no path is configured" % what))
-        return {"viols": viols, "cfg": cfg, "rotated": nrot, "msgs": len(all_msgs), "pty": use_pty}
+        return {"viols": viols, "cfg": cfg, "rotated": nrot, "msgs": len(all_msgs), "pty": use_pty, "renderings": renderings}
     finally:
         shutil.rmtree(d, ignore_errors=True)
 
@@ -303,6 +307,22 @@ def run(tier):
     eng = [r for r in res + res1 if "engine" in r]
     if eng:
         raise vlib.EngineError(eng[0]["engine"])
+    # the default format (no message_pattern) of a message is a function of the message: it must not depend on the other keys
+    # (which messages the filters let through before it, which outputs are on, async) - compared across ALL configurations of the run
+    allr = {}
+    for r in res:
+        for text, forms in r.get("renderings", {}).items():
+            allr.setdefault(text, {})
+            for f in forms:
+                allr[text].setdefault(f, r["cfg"])
+    cross = []
+    for text, forms in allr.items():
+        if len(forms) > 1:
+            (f1, c1), (f2, c2) = list(forms.items())[:2]
+            cross.append(("default-format-depends-on-configuration", "without message_pattern the message %r is rendered as %r under %s but as %r under %s" % (
+                text, f1, json.dumps({k: v for k, v in c1.items() if v is not None}, sort_keys=True), f2, json.dumps({k: v for k, v in c2.items() if v is not None}, sort_keys=True))))
+    if cross:
+        res.append({"viols": cross[:2], "cfg": "cross-configuration", "pty": False})
     fails = [hist] if ("_crash" in hist or "_timeout" in hist) else []
     tot = seqxrun.merge([] if fails else [hist])
     viols, seen = [], {}
